@@ -129,9 +129,9 @@ func c09Tier(tier string) (single, seqs int) {
 	c09Once.Do(c09Enum)
 	single = (len(c09SCalls) + len(c09CCalls)) * c09Instances
 	if tier == "thorough" {
-		return single * 4, 200000
+		return single * 4, 400000
 	}
-	return single, 40000
+	return single, 80000
 }
 
 type c09Target struct {
@@ -213,6 +213,121 @@ func c09Allowed(method string) (DiffOpts, bool) {
 	return DiffOpts{}, false
 }
 
+// c09Foreign: the read-only instance is not the receiver but an ARGUMENT of another (writable) instance's method,
+// or an ELEMENT / EXPRESSION nested inside the writable receiver. It must not change either.
+func c09Foreign(c *core.Ctx, r *core.Rng) {
+	roIsCond := r.Chance(1, 4)
+	ro := c09Build(r.U64(), roIsCond)
+	structural := !roIsCond && r.Chance(1, 3)
+	if structural {
+		// a read-only stack full of removable wrappers and nil gaps: the structure-rewriting methods of an
+		// enclosing writable stack (Reveal, Defrag) must leave it alone
+		tr := c20Gen.Gen(r)
+		tr.Mutex = false
+		tr.Walk(func(n *TNode) {
+			if n.T == "stack" && len(n.Kids) > 1 && r.Bool() {
+				n.Kids = n.Kids[:1]
+			}
+		})
+		ro = &c09Target{s: tr.BuildStack().Push(nil, "tail"), desc: tr.Brief()}
+		ro.recv = reflect.ValueOf(&ro.s)
+	}
+	ro.setRO(true)
+	var roVal any = ro.s
+	if roIsCond {
+		roVal = ro.cd
+	}
+	form := r.Intn(4)
+	formName := []string{"native", "alias", "pointer-to-alias", "pointer-to-native"}[form]
+	var arg any
+	switch {
+	case form == 0:
+		arg = roVal
+	case form == 1 && roIsCond:
+		arg = ACond(ro.cd)
+	case form == 1:
+		arg = AStack(ro.s)
+	case form == 2 && roIsCond:
+		a := ACond(ro.cd)
+		arg = &a
+	case form == 2:
+		a := AStack(ro.s)
+		arg = &a
+	case roIsCond:
+		arg = &ro.cd
+	default:
+		arg = &ro.s
+	}
+	nested := r.Chance(1, 3) || structural
+	// the writable receiver
+	wIsCond := r.Chance(1, 4) && !nested
+	w := c09Build(r.U64(), wIsCond)
+	if w.isCond {
+		w.cd.SetReadOnly(false)
+	} else {
+		w.s.SetReadOnly(false)
+	}
+	role := "argument"
+	if nested {
+		role = "nested-element"
+		if r.Bool() && !roIsCond {
+			w.s.Push(stackage.Cond("holder", stackage.Eq, arg))
+			role = "nested-condition-expression"
+		} else {
+			w.s.Insert(arg, r.Intn(w.s.Len()+1))
+		}
+	}
+	pool := c09SCalls
+	if wIsCond {
+		pool = c09CCalls
+	}
+	// pick a method; in the argument role substitute the read-only instance for every `any` parameter
+	cs := c09Fresh(wIsCond, []CallSpec{pool[r.Intn(len(pool))]})[0]
+	if structural {
+		want := []string{"Reveal", "Defrag", "Reveal", "Reset"}[r.Intn(4)]
+		for _, k := range c09Fresh(false, c09SCalls) {
+			if k.Method == want {
+				cs = k
+				break
+			}
+		}
+		c.Count("foreign.structural")
+	}
+	if !nested {
+		hasAny := false
+		for i, a := range cs.Args {
+			if a.Type() == tAny {
+				v := reflect.New(tAny).Elem()
+				v.Set(reflect.ValueOf(arg))
+				cs.Args[i] = v
+				hasAny = true
+			}
+		}
+		if !hasAny {
+			return
+		}
+	}
+	roKind := "Stack"
+	if roIsCond {
+		roKind = "Condition"
+	}
+	desc := map[string]any{"role": role, "read_only": roKind + " " + ro.desc, "form": formName, "call": cs.Method, "receiver": w.desc}
+	s0 := ro.take()
+	_, pan, msg, site := Invoke(w.recv, cs)
+	if pan {
+		c.Violatef("panic:foreign:"+cs.Method, desc, "%s with a read-only %s as %s panicked (%s): %s", cs.Method, roKind, role, site, msg)
+		return
+	}
+	c.Count("foreign." + role)
+	// the flag is per instance: writable Stacks held BY the read-only instance may legitimately be changed through
+	// another handle, so only the read-only instance itself is compared here (its record, its slots / expression by identity)
+	if d := Diff(s0, ro.take(), DiffOpts{Shallow: true}); d != "" {
+		c.Violatef("changed-as-"+role+":"+cs.Method, desc, "%s on another instance changed the read-only %s (%s, %s): %s", cs.Method, roKind, role, formName, d)
+		return
+	}
+	c.NontrivialStr(fmt.Sprintf("foreign|%s|%s|%s|%s", role, roKind, formName, cs.Desc))
+}
+
 func c09Run(c *core.Ctx, idx int) {
 	single, _ := c09Tier(c.Tier)
 	r := c.Rng
@@ -230,6 +345,10 @@ func c09Run(c *core.Ctx, idx int) {
 		}
 		seed := core.Mix(uint64(c.Seed)+uint64(idx/((nS+nC)*c09Instances)), uint64(inst)*977+uint64(ci))
 		c09One(c, seed, isCond, []CallSpec{cs})
+		return
+	}
+	if idx%2 == 1 {
+		c09Foreign(c, r)
 		return
 	}
 	isCond := r.Chance(1, 3)
@@ -386,12 +505,12 @@ func init() {
 			c.Notes["call_variants"] = fmt.Sprintf("Stack=%d Condition=%d", len(c09SCalls), len(c09CCalls))
 		},
 		Rule: "every exported method of *Stack and *Condition (enumerated by reflection at run time) x argument variants (each parameter varied through its pool; variadics with 0/1/2 values; recording/nil closures) x 24 (quick) / 96 (thorough) random instances " +
-			"(nested trees with Conditions/aliases, capacity, FIFO, all option bits, ID, category, delimiter, symbol, encapsulation, six policies, less function, auxiliary map, logger, log levels, mutex), invoked singly on the read-only instance; plus random 2..5-call sequences. " +
+			"(nested trees with Conditions/aliases, capacity, FIFO, all option bits, ID, category, delimiter, symbol, encapsulation, six policies, less function, auxiliary map, logger, log levels, mutex), invoked singly on the read-only instance; plus random 2..5-call sequences; plus foreign-role cases in which the read-only instance (native, alias, pointer forms) is an ARGUMENT of a random method of another, writable instance, or an element / Condition expression NESTED inside the writable receiver of a random method. " +
 			"Oracle: recursive VerifDump snapshot before/after must be identical except the read-only bit after SetReadOnly/ReadOnly, err after SetErr and the instance after Condition.Init; Free must return an error and leave the handle initialised; " +
 			"after clearing the flag the state equals the initial one and a setter takes effect. non-trivial = the same call(s) DO change a writable twin built from the same seed (measured, so the guard is known to matter); distinct = (receiver kind, call list, instance).",
 		Assumptions: []string{"closures installed before the flag is set are inert (a user closure invoked by Valid/IsEqual/... may of course do anything)", "the Auxiliary map handed out by Auxiliary() is user-managed and not part of the comparison beyond identity and shallow content"},
 		Floors: func(string) map[string]int64 {
-			return map[string]int64{"calls.Stack": 3000, "calls.Condition": 1000, "guard-matters.Stack": 500, "guard-matters.Condition": 100}
+			return map[string]int64{"calls.Stack": 3000, "calls.Condition": 1000, "guard-matters.Stack": 500, "guard-matters.Condition": 100, "foreign.argument": 3000, "foreign.nested-element": 1000}
 		},
 	})
 }
